@@ -128,8 +128,11 @@ def check_interval(text, desc):
         return None
     f = lambda v: (v.year, v.month, v.day, v.hour, v.minute, v.second, v.microsecond, v.utcoffset())
     if f(r.start) != f(s) or f(r.end) != f(e):
-        return dict(base, kind="wrong", got=f"{r.start!r} .. {r.end!r}", expected=f"{s!r} .. {e!r}",
-                    half_us=desc["duration"] is not None and abs((r.end - r.start).total_seconds() - (e - s).total_seconds()) <= 1.5e-6)
+        d_got = _dt.datetime.__sub__(r.end, r.start)
+        d_exp = _dt.datetime.__sub__(e, s)
+        err_us = abs(_dt.timedelta.__sub__(d_got, d_exp) // US)
+        return dict(base, kind="wrong", got=f"{r.start!r} .. {r.end!r}", expected=f"{s!r} .. {e!r}", err_us=err_us, duration_s=abs(d_exp.total_seconds()),
+                    half_us=desc["duration"] is not None and err_us <= 1)
     return None
 
 
